@@ -217,3 +217,9 @@ Qed.
 Theorem snake_roundtrip l c :
   xencode XSnake (VBits l) = Ok c -> xdecode XSnake c = Ok (VBits l, mks [] []).
 Proof. apply xgeneric_roundtrip; reflexivity. Qed.
+
+(** length-prefixed bytes: the prefix is the number of BYTES that follow *)
+Theorem lenbytes_exact fuel w l u :
+  (length l mod 8 = 0)%nat ->
+  xspec (S fuel) (XLenBytes w) (VBits l) u = Some (bits_of w (N.of_nat (length l / 8)) ++ l, []).
+Proof. intros H. cbn [xspec]. apply Nat.eqb_eq in H. rewrite H. reflexivity. Qed.
